@@ -31,6 +31,11 @@ type relInput struct {
 	Req      string   `json:"req"`
 	Level    int      `json:"level"`
 	KnownID  string   `json:"known_id,omitempty"`
+	// the dependency is declared under an alias ("alias": "npm:pkg@req"); AliasLevel >= 0: the
+	// configuration also has a level under the alias name. The level that applies is that of Pkg.
+	Alias      string `json:"alias,omitempty"`
+	AliasLevel int    `json:"alias_level,omitempty"`
+	PkgUnset   bool   `json:"pkg_level_unset,omitempty"` // no entry for Pkg: the default (Level) applies
 }
 
 type relObs struct {
@@ -66,6 +71,15 @@ func runRelax(in relInput) relObs {
 	req := resolve.RequirementVersion{VersionKey: resolve.VersionKey{
 		PackageKey: resolve.PackageKey{System: resolve.NPM, Name: in.Pkg}, VersionType: resolve.Requirement, Version: in.Req}}
 	cfg := upgrade.Config{in.Pkg: upgrade.Level(in.Level)}
+	if in.PkgUnset {
+		cfg = upgrade.Config{"": upgrade.Level(in.Level)}
+	}
+	if in.Alias != "" {
+		req.Type.AddAttr(dep.KnownAs, in.Alias)
+		if in.AliasLevel >= 0 {
+			cfg[in.Alias] = upgrade.Level(in.AliasLevel)
+		}
+	}
 	var got resolve.RequirementVersion
 	var ok bool
 	oc, _ := guarded(callLimit, func() { got, ok = guidedremediation.VerifC11NpmRelax(ctx, cl, req, cfg) })
@@ -191,9 +205,70 @@ func genRelPrereleaseGap(r *rand.Rand) relInput {
 	return in
 }
 
+// genRelDisjoint: a requirement matching two separated blocks of the version list, with published
+// versions in the gap and (mostly) above the upper block.
+func genRelDisjoint(r *rand.Rand) relInput {
+	m := 1 + r.Intn(2)
+	var vs []string
+	add := func(maj int, n int) {
+		for k := 0; k < n; k++ {
+			vs = append(vs, fmt.Sprintf("%d.%d.%d", maj, r.Intn(4), r.Intn(4)))
+		}
+	}
+	lo := fmt.Sprintf("%d.0.0", m)
+	hi := fmt.Sprintf("%d.0.0", m+2)
+	vs = append(vs, lo, hi)
+	add(m, 1+r.Intn(2))
+	add(m+1, 1+r.Intn(3)) // the gap
+	add(m+2, 1+r.Intn(2))
+	if r.Intn(3) != 0 {
+		add(m+3, 1+r.Intn(2))
+	}
+	seen := map[string]bool{}
+	var out []string
+	for _, v := range vs {
+		if !seen[v] {
+			seen[v] = true
+			out = append(out, v)
+		}
+	}
+	r.Shuffle(len(out), func(a, b int) { out[a], out[b] = out[b], out[a] })
+	in := relInput{Pkg: "pa", Versions: out, Level: pick(r, []int{0, 0, 0, 1, 2}), AliasLevel: -1}
+	in.Req = pick(r, []string{"^" + lo + " || ^" + hi, "~" + lo + " || ^" + hi, "<" + fmt.Sprintf("%d.0.0", m+1) + " || ^" + hi, lo + " || " + hi})
+	count("relax_disjoint_requirement", levelCoq(upgrade.Level(in.Level)))
+	return in
+}
+
 func genRelInput(r *rand.Rand) relInput {
-	if r.Intn(10) == 0 {
+	in := genRelInput0(r)
+	if in.Alias == "" {
+		in.AliasLevel = -1
+		if r.Intn(5) == 0 {
+			// declared under an alias; levels under the real name, the alias name, or both
+			in.Alias = pick(r, []string{"shim", "@al/shim"})
+			if r.Intn(3) == 0 {
+				in.Pkg = "@sc/real-pkg"
+			}
+			lv := []int{0, 1, 2, 3}
+			switch r.Intn(3) {
+			case 0: // both, different
+				in.AliasLevel = pick(r, lv)
+			case 1: // only the alias has an entry: the default applies to the package
+				in.AliasLevel = pick(r, lv)
+				in.PkgUnset = true
+			}
+			count("relax_alias", fmt.Sprintf("alias_level=%v pkg_unset=%v", in.AliasLevel >= 0, in.PkgUnset))
+		}
+	}
+	return in
+}
+
+func genRelInput0(r *rand.Rand) relInput {
+	switch r.Intn(10) {
+	case 0:
 		return genRelPrereleaseGap(r)
+	case 1:
+		return genRelDisjoint(r)
 	}
 	vs := genVersions(r, resolve.NPM, genCount(r))
 	if r.Intn(20) == 0 {
@@ -226,6 +301,9 @@ func genRelInput(r *rand.Rand) relInput {
 }
 
 func addRel(o *output, stream string, in relInput) {
+	if in.Alias == "" {
+		in.AliasLevel = -1
+	}
 	obs := runRelax(in)
 	s, nt := relCoq(npmClient(in), in.Pkg, in.Req, upgrade.Level(in.Level), obs)
 	o.add(stream, s, map[string]any{"input": in, "observed": obs, "nontrivial": nt, "known_id": in.KnownID, "source": "direct"})
@@ -356,6 +434,23 @@ func streamFixNpm(o *output, r *rand.Rand, n int) {
 		m := genManifest(r, u)
 		var extra []vulnSpec
 		cfg := genConfig(r, u)
+		for k := range m.Deps {
+			if r.Intn(4) == 0 {
+				// declared under an alias; the level configured for the REAL package is the one that applies
+				m.Deps[k].Alias = fmt.Sprintf("shim-%d", k)
+				strict := pick(r, []upgrade.Level{upgrade.Patch, upgrade.Minor, upgrade.None, upgrade.Patch})
+				switch r.Intn(3) {
+				case 0:
+					cfg.Set(m.Deps[k].Name, strict)
+					cfg.Set(m.Deps[k].Alias, upgrade.Major)
+				case 1:
+					cfg.Set(m.Deps[k].Name, strict)
+				default:
+					cfg.Set(m.Deps[k].Alias, pick(r, []upgrade.Level{upgrade.Major, upgrade.None}))
+				}
+				count("manifest_alias", "yes")
+			}
+		}
 		if i%4 == 3 {
 			// a direct dependency with a prerelease gap above its requirement, vulnerable up to the prerelease
 			in := genRelPrereleaseGap(r)
